@@ -20,6 +20,9 @@ namespace verif {
   // placement-construct an engine at `where` (C14); destroy with ->~ChaiScript_Basic()
   Engine *make_engine_at(void *where, std::vector<std::string> use_paths = {});
   size_t engine_size();
+  // the standard-library module as an embedder gets it (to extend before building an engine from it)
+  chaiscript::ModulePtr make_stdlib_module();
+  Engine *make_engine_from_module_at(void *where_or_null, const chaiscript::ModulePtr &lib, std::vector<std::string> use_paths = {});
 
   // warm every function-local static ChaiScript owns (call once from main before any actor exists)
   void warm_up();
